@@ -24,7 +24,14 @@ func chunks(g *docGen, total int) string {
 		if total < 140 {
 			n = total
 		}
-		sb.WriteString(g.para(n))
+		// a paragraph of n words; now and then one word is followed directly by an inline element (1<sup>st</sup>):
+		// two text nodes, two words for the word counter, two words in the text view
+		if n >= 10 && g.rng.Intn(3) == 0 {
+			tag := pickS(g.rng, "sup", "sub", "b", "span")
+			sb.WriteString("<p>" + g.words(n/2) + "<" + tag + ">" + g.words(1) + "</" + tag + "> " + g.words(n-n/2-1) + "</p>")
+		} else {
+			sb.WriteString(g.para(n))
+		}
 		total -= n
 	}
 	return sb.String()
